@@ -232,9 +232,9 @@ def k_defaults(ctx, name, p):
 def _foreign_value_for(target, variant=0):
     """A value that is valid content for the *target* class (so that only the type can be objected to).  Variants: content
     the target class treats specially (a reserved 'cfdp' message, the longest value, an empty one)."""
-    vs = {"entity_id": [bytes([1, 2]), bytes(8), b"\xff" * 4, b"\x07"],
+    vs = {"entity_id": [bytes([1, 2]), bytes(8), b"\xff" * 4, b"\x07", b""],
           "flow_label": [b"lbl", b"", b"cfdp\x00", bytes(255)],
-          "fault_handler": [bytes([0x41]), bytes([0x12]), bytes([0xF4]), bytes([0x33])],
+          "fault_handler": [bytes([0x41]), bytes([0x12]), bytes([0xF4]), bytes([0x33]), b""],      # the empty value: a foreign TLV is a foreign TLV before it is an empty one
           "msg_to_user": [b"hello", b"cfdp\x00" + R.lv(b"a") + R.lv(b"b") + R.lv(b"c"), b"cfdp\x0a\x11\x01\x05", b"cfdp\x10" + R.lv(b"dir") + R.lv(b"out"), b"cfdp", b""],
           "fs_request": [R.fs_request_value(1, b"a.txt"), R.fs_request_value(2, b"a", b"b"), R.fs_request_value(0, b"cfdp\x00"), R.fs_request_value(6, b"")],
           "fs_response": [R.fs_response_value(1, 0, b"a.txt", b"", b""), R.fs_response_value(2, 0, b"a", b"b", b"msg"), R.fs_response_value(0, 1, b"cfdp", b"", b"cfdp\x00"),
@@ -296,7 +296,40 @@ def k_status_maps(ctx, action, status4):
         ctx.check("status_maps", ok and (int(t[0]), t[1]) == (action, status4), "enum_to_action_status", "", case, observed=repr(t))
 
 
-KINDS = {"defaults": k_defaults, "tlv": k_tlv, "lv": k_lv, "refuse": k_refuse, "concrete": k_concrete, "type_safety": k_type_safety, "status_maps": k_status_maps}
+def k_holder_reuse(ctx, seed):
+    """One TlvHolder handed one TLV after the other (generic and concrete ones, of every type): every conversion answers for the
+    TLV the holder holds at that moment."""
+    import random
+    from spacepackets.cfdp.exceptions import TlvTypeMissmatch
+    X = C.lib()
+    r = random.Random(f"tlvholder/{seed}")
+    case = {"k": "holder_reuse", "seed": seed}
+    ctx.case("holder_reuse", seed, sample=case)
+    h = X.TlvHolder(None)
+    trail = []
+    for step in range(r.randrange(2, 7)):
+        name = r.choice(CONCRETE)
+        p = {"entity_id": {"id": rand_bytes(r, r.choice(C.WIDTHS)).hex()}, "flow_label": {"label": rand_bytes(r, r.randrange(0, 9)).hex()}, "msg_to_user": {"msg": rand_bytes(r, r.randrange(0, 9)).hex()},
+             "fault_handler": {"cond": r.choice(C.CONDS), "handler": r.choice((1, 2, 3, 4))},
+             "fs_request": {"action": 1, "first": r.choice(NAME_POOL[:5]), "second": ""}, "fs_response": {"action": 1, "status": 0x10, "first": r.choice(NAME_POOL[:5]), "second": "", "msg": rand_bytes(r, 3).hex()}}[name]
+        o, want = make(name, p)
+        generic = r.random() < 0.7
+        h.tlv = X.CfdpTlv.unpack(want) if generic else o
+        trail.append(f"{name}:{'generic' if generic else 'concrete'}")
+        for target in CONCRETE:
+            ok, res = attempt(getattr(h, HOLDER[target]))
+            ctx.ev("holder.reuse")
+            if target == name:
+                if not ok or read(name, res) != p or bytes(res.pack()) != want:
+                    return ctx.fail("holder.reuse", "conversion_does_not_answer_for_the_tlv_held_now", f"{name}/{'generic' if generic else 'concrete'}", dict(case, trail=trail),
+                                    observed=repr(res)[:200], expected=p)
+            elif ok:
+                return ctx.fail("holder.reuse", "foreign_type_accepted_by_a_reused_holder", f"{target}<-{name}", dict(case, trail=trail), observed=repr(res)[:200])
+            elif not isinstance(res, (TlvTypeMissmatch, TypeError)):
+                return ctx.fail("holder.reuse", "wrong_error", f"{target}<-{name}/{type(res).__name__}", dict(case, trail=trail), error=repr(res))
+
+
+KINDS = {"holder_reuse": k_holder_reuse, "defaults": k_defaults, "tlv": k_tlv, "lv": k_lv, "refuse": k_refuse, "concrete": k_concrete, "type_safety": k_type_safety, "status_maps": k_status_maps}
 NAME_POOL = ["", "a", "/tmp/test.txt", "dir/子/ファイル.bin", "é" * 30, "n" * 100]
 
 
@@ -401,6 +434,8 @@ def run(ctx):
         else:
             p = C.rand_response(r)
         k_concrete(ctx, name, p, suffix=rand_bytes(r, r.choice((0, 0, 1, 4))).hex())
+    for j in range(ctx.n(400, 40_000)):
+        k_holder_reuse(ctx, ctx.seed * 1_000_003 + ctx.shard[0] * 100_003 + j)
     # type safety matrix: 6 classes x 5 foreign types x 4 routes
     for target in CONCRETE:
         for ft in R.TLV_TYPES:
